@@ -389,11 +389,14 @@ impl Ctl<'_> {
                 ControlAction::StepOut(_) => Some("out"),
                 _ => None,
             };
-            if let (Some(k), true) = (kind, self.sched.points_of(self.ct) == points_before && !self.done()) {
-                let target_thread = match action {
-                    ControlAction::StepOver(t) | ControlAction::StepOut(t) => t,
-                    _ => None,
-                };
+            let target_thread = match action {
+                ControlAction::StepOver(t) | ControlAction::StepOut(t) => t,
+                _ => None,
+            };
+            // a step addressed to a task that is not executing right now starts from wherever
+            // that task last was, which the controller cannot observe: no expectation then
+            let addressed_elsewhere = target_thread.is_some() && target_thread != self.control.current_thread();
+            if let (Some(k), true) = (kind, !addressed_elsewhere && self.sched.points_of(self.ct) == points_before && !self.done()) {
                 self.steps_while_running += 1;
                 self.expect = Some((k.to_string(), origin_depth, None, target_thread));
             }
